@@ -471,6 +471,27 @@ def run_internal(ctx, rng, spec, root):
         attempt(ctx, dest, lambda: p8file.to_file(big, dest.path),
                 {'injector': 'oversize_code', 'fmt': 'png', 'exists': exists, 'readonly': readonly}, 'oversize_code', fired=always)
         shutil.rmtree(dest.dir, ignore_errors=True)
+        # 1b. a .rom destination (a format the library may or may not be able to write): a Lua writer that raises, or code that
+        # cannot be encoded, fails the save whatever the format, and the file stays as it is
+        if not readonly and not empty:
+            romdir = os.path.join(root, 'romdest')
+            os.makedirs(romdir, exist_ok=True)
+            rompath = os.path.join(romdir, 'cart.rom')
+            if exists:
+                with open(rompath, 'wb') as fh:
+                    fh.write(carts.random_bytes(rng, 0x8000))
+            elif os.path.exists(rompath):
+                os.remove(rompath)
+            rdest = PlainDest(ctx, rompath, 'rom')
+            g_rom = new_game(rng)
+            W = faults.failing_writer_cls(lua.LuaEchoWriter, 1)
+            attempt(ctx, rdest, lambda: p8file.to_file(g_rom, rompath, lua_writer_cls=W),
+                    {'injector': 'rom_lua_writer', 'fmt': 'rom', 'exists': exists}, 'rom_destination', fired=always)
+            attempt(ctx, rdest, lambda: p8file.to_file(big, rompath),
+                    {'injector': 'rom_oversize_code', 'fmt': 'rom', 'exists': exists}, 'rom_destination', fired=always)
+            attempt(ctx, rdest, lambda: p8file.to_file(g_rom, rompath),
+                    {'injector': 'rom_plain', 'fmt': 'rom', 'exists': exists}, 'rom_destination', fired=None)
+            shutil.rmtree(romdir, ignore_errors=True)
         for fmt in ('p8', 'png'):
             # 2. the minifier is told to read a names file that does not exist
             dest = Dest(ctx, rng, fmt, exists, root, readonly=readonly, empty=empty)
@@ -863,6 +884,9 @@ def replay(case, ctx):
     fsmon.install()
     try:
         fmt, exists, inj = case.get('fmt', 'p8'), case.get('exists', True), case['injector']
+        if inj.startswith('rom_'):
+            run_internal(ctx, rng, {}, root)      # (the internal failure sources as a whole: the .rom cases are among them)
+            return
         if inj in ('batch_one_cart_fails', 'cli_lua_writer', 'cli_unparseable_output'):
             run_cli_more(ctx, rng, {}, root)      # (the whole small grid: the recorded case is one of its cells)
             return
@@ -908,7 +932,7 @@ def gates(m, tier):
             missed.append('%s never driven' % k)
     for inj in ('stream', 'lua_writer', 'section', 'png_encoder', 'failpoint', 'unparseable_output', 'oversize_code', 'missing_names_file',
                 'build_unparseable_source', 'build_missing_require', 'unparseable_own_tokens', 'explicit_label_then_failure',
-                'batch_one_cart_fails', 'cli_lua_writer', 'cli_unparseable_output', 'build_source_cart_does_not_load'):
+                'batch_one_cart_fails', 'cli_lua_writer', 'cli_unparseable_output', 'build_source_cart_does_not_load', 'rom_destination'):
         if mon.get('faults_delivered:' + inj, 0) < 1:
             missed.append('no fault delivered by injector %s' % inj)
     for inj in ('stream', 'lua_writer', 'section', 'failpoint'):
